@@ -461,7 +461,7 @@ fn forge(net: &Net, to: Addr, from: Addr, kind: u8, a: i32, b: i32, bytes: &[u8]
         }
     };
     // kinds 0-3, 8, 9 keep the sender's real magic and address
-    let authentic_looking = matches!(kind, 0..=3 | 8 | 9 | 12 | 13);
+    let authentic_looking = matches!(kind, 0..=3 | 8 | 9 | 12 | 13 | 14);
     let push = |m: MMessage| {
         net.borrow_mut().inject(from, to, from_mirror(&m), authentic_looking);
         true
@@ -593,6 +593,20 @@ fn forge(net: &Net, to: Addr, from: Addr, kind: u8, a: i32, b: i32, bytes: &[u8]
             let nonce = 0x0bad_0000u32 ^ (b as u32).wrapping_mul(2654435761);
             let body = if kind == 10 { MBody::SyncRequest { random_request: nonce } } else { MBody::SyncReply { random_reply: nonce } };
             push(MMessage { header: MHeader { magic }, body })
+        }
+        // a GENUINE-looking announcement (C17, not a malformed packet): copy of the sender's last real input packet
+        // in which player `a` is flagged as disconnected at the last frame the sender reports for it anyway - what the
+        // sender would send had it just dropped that player
+        14 => {
+            let Some(mut m) = tin else { return false };
+            if let MBody::Input { peer_connect_status, .. } = &mut m.body {
+                let i = a.max(0) as usize;
+                if i >= peer_connect_status.len() {
+                    return false;
+                }
+                peer_connect_status[i].disconnected = true;
+            }
+            push(m)
         }
         // copy of the last real input packet whose payload is not a valid encoding AND whose connection-status
         // table claims that player `a` is disconnected since frame `b`: a malformed packet must not change the
@@ -1578,6 +1592,23 @@ fn misuse<I: HInp, P: InputPredictor<I> + 'static>(pe: &mut PeerRt<I, P>, kind: 
                     _ => false,
                 } && s.current_frame() == before;
                 (ok, format!("advance_frame() without inputs -> {:?}", r.as_ref().map(|v| v.len())))
+            }
+            6 => {
+                // advance with inputs for only SOME of this peer's local players (needs two of them and nothing pending)
+                if pe.inputs_pending || pe.out.handles.len() < 2 {
+                    s.poll_remote_clients();
+                    return (true, "skipped (inputs pending or a single local player)".into());
+                }
+                let before = s.current_frame();
+                let first = pe.out.handles[(arg as usize) % (pe.out.handles.len() - 1)];
+                let _ = s.add_local_input(first, I::from_v(1 + arg as u32 % 3));
+                let r = s.advance_frame();
+                let ok = match &r {
+                    Err(GgrsError::NotSynchronized) => true,
+                    Err(GgrsError::InvalidRequest { .. }) => true,
+                    _ => false,
+                } && s.current_frame() == before;
+                (ok, format!("advance_frame() with an input for player {first} only -> {:?}", r.as_ref().map(|v| v.len())))
             }
             3 => {
                 let cs = s.verif_connect_status();
